@@ -584,6 +584,9 @@ type histCase struct {
 	Ops      []histOp
 	Snaps    [][]snapFile
 	Fetch    []int64 // FetchEntriesFromFiles, put back in chronological order (main logger only)
+	HasWin   bool    // a fetch from a time mark on was made
+	WinWant  []int64 // the messages logged after the mark
+	WinGot   []int64 // FetchEntriesFromFiles(mark, max), chronological
 	HasFetch bool
 	Note     string
 }
@@ -1074,7 +1077,34 @@ func runHist(rng *rand.Rand, kind string, cal calib, seq *int, gcOnly, reopen bo
 		}
 	}
 	doSnap()
+	var winMark int64
+	if kind == "main" && rng.Intn(2) == 0 {
+		// a time mark in the middle of the current file's life, then more messages:
+		// FetchEntriesFromFiles from the mark on must return exactly those
+		time.Sleep(2 * time.Millisecond) // entry times are kept to the microsecond
+		winMark = time.Now().UnixNano()
+		time.Sleep(2 * time.Millisecond)
+		forceSmall = true
+		for n := 1 + rng.Intn(3); n > 0; n-- {
+			hc.WinWant = append(hc.WinWant, nextID)
+			doLog()
+		}
+		forceSmall = false
+		doSnap()
+	}
 	if kind == "main" {
+		if winMark != 0 {
+			es, err := log.FetchEntriesFromFiles(winMark, math.MaxInt64, 1<<30, nil)
+			if err != nil {
+				panic(err)
+			}
+			hc.HasWin = true
+			for i := len(es) - 1; i >= 0; i-- {
+				if id, ok := idOf(es[i].Message); ok {
+					hc.WinGot = append(hc.WinGot, id)
+				}
+			}
+		}
 		es, err := log.FetchEntriesFromFiles(0, math.MaxInt64, 1<<30, nil)
 		if err != nil {
 			panic(err)
@@ -2109,9 +2139,18 @@ func main() {
 	for _, c := range api {
 		it = append(it, coqAPI(c))
 	}
-	sb.WriteString("Definition api_cases : list api_case := " + vh.ListNL(it) + ".\n")
+	sb.WriteString("Definition api_cases : list api_case := " + vh.ListNL(it) + ".\n\n")
+	it = nil
+	var fetchWin []histCase
+	for _, h := range hist {
+		if h.HasWin {
+			fetchWin = append(fetchWin, h)
+			it = append(it, fmt.Sprintf("(%s, %s)", zs(h.WinWant), zs(h.WinGot)))
+		}
+	}
+	sb.WriteString("Definition fetch_cases : list fetch_case := " + vh.ListNL(it) + ".\n")
 	vh.WriteFile(*out, "cases.v", sb.String())
-	vh.WriteJSON(*out, "cases.json", map[string]interface{}{"codec": codec, "raw": raw, "probe": probe, "hist": hist, "multi": multi, "api": api})
+	vh.WriteJSON(*out, "cases.json", map[string]interface{}{"codec": codec, "raw": raw, "probe": probe, "hist": hist, "multi": multi, "api": api, "fetch": fetchWin})
 
 	// ---- summary
 	distinct := map[string]bool{}
@@ -2256,6 +2295,7 @@ func main() {
 		"local_zone_offset_s": zoneOff,
 		"hist":                len(hist), "hist_error": histErr, "hist_discarded_goid_glitch": discarded, "hist_log_ops": logs, "hist_gc_ops": gcs, "hist_files_at_end": rotations,
 		"calibration":          map[string]interface{}{"main": []int64{calMain.overhead, calMain.h}, "secondary": []int64{calSec.overhead, calSec.h}},
+		"fetch_windows":        len(fetchWin),
 		"hist_other_user_name": nUser, "hist_main_file_threshold_raised": nThreshold,
 		"hist_buffer_sized_entry": nBigSeen, "hist_own_directory_loggers": nOwnSeen, "api": len(api), "api_calls": apiCalls,
 		"hist_close_reopen_ops": closes, "hist_reopens_under_same_name": sameName, "codec_readers": readerCount, "codec_longest_stream": longest,
